@@ -417,4 +417,186 @@ theorem varTypeGroup2_of (s : Str) (a b : Nat)
   rw [varTypeGroup2, hsearch]
   simp only [groupText_set2]
 
+/-! ### the failing side: no name at the start -/
+
+/-- `[set]{mn,}` fails when the continuation fails behind every prefix of set characters it can stop at -/
+theorem rep_set_fail {R : Type} (S : CharSet) (k : Str → Nat → Caps → Option R) (caps : Caps) :
+    ∀ (inp : Str) (f mn pos : Nat),
+      (∀ (j : Nat), mn ≤ j → j ≤ inp.length → (∀ c ∈ inp.take j, S.matches c = true) → k (inp.drop j) (pos + j) caps = none) →
+      mAux f (.rep mn none (.set S)) inp pos caps k = none := by
+  intro inp
+  induction inp with
+  | nil =>
+    intro f mn pos hk
+    cases f with
+    | zero => rw [mAux_zero]
+    | succ f =>
+      have hm : repMore f mn none (.set S) [] pos caps k = none := by
+        simp only [repMore, reduceCtorEq, if_false]
+        cases f with
+        | zero => rw [mAux_zero]
+        | succ f => rw [mAux_set_nil]
+      rw [mAux_rep_none _ _ _ _ _ _ _ _ hm]
+      split
+      · rename_i h0
+        have := hk 0 (by omega) (by simp) (by simp)
+        simpa using this
+      · rfl
+  | cons x xs ih =>
+    intro f mn pos hk
+    cases f with
+    | zero => rw [mAux_zero]
+    | succ f =>
+      have hm : repMore f mn none (.set S) (x :: xs) pos caps k = none := by
+        simp only [repMore, reduceCtorEq, if_false]
+        cases f with
+        | zero => rw [mAux_zero]
+        | succ f =>
+          rw [mAux_set_cons]
+          split
+          · rename_i hx
+            rw [if_neg (by omega)]
+            apply ih
+            intro j hmn hj hall
+            have := hk (j + 1) (by omega) (by simp only [List.length_cons]; omega) (by
+              intro c hc
+              simp only [List.take_succ_cons, List.mem_cons] at hc
+              rcases hc with hc | hc
+              · rw [hc]; exact hx
+              · exact hall c hc)
+            simp only [List.drop_succ_cons] at this
+            rw [← this]; congr 1; omega
+          · rfl
+      rw [mAux_rep_none _ _ _ _ _ _ _ _ hm]
+      split
+      · rename_i h0
+        have := hk 0 (by omega) (by simp) (by simp)
+        simpa using this
+      · rfl
+
+/-- the name part fails when the text does not begin with a name character -/
+theorem name_fail (f : Nat) (inp : Str) (pos : Nat) (caps : Caps) (h : ∀ c, inp.head? = some c → setW.matches c = false) :
+    mAux f reName inp pos caps kfin = none := by
+  cases f with
+  | zero => rw [mAux_zero]
+  | succ f =>
+    rw [reName, mAux_seq]
+    cases f with
+    | zero => rw [mAux_zero]
+    | succ f =>
+      rw [mAux_group]
+      cases f with
+      | zero => rw [mAux_zero]
+      | succ f =>
+        have hm : repMore f 1 none (.set setW) inp pos caps
+            (fun i p c => (fun i p c => mAux (f + 1 + 1) reTail i p c kfin) i p (Caps.set c 2 (pos, p))) = none := by
+          simp only [repMore, reduceCtorEq, if_false]
+          cases f with
+          | zero => rw [mAux_zero]
+          | succ f =>
+            cases inp with
+            | nil => rw [mAux_set_nil]
+            | cons x xs => rw [mAux_set_cons, if_neg (by simp [h x rfl])]
+        rw [mAux_rep_none _ _ _ _ _ _ _ _ hm]
+        simp
+
+theorem rep_set_some {R : Type} (S : CharSet) (k : Str → Nat → Caps → Option R) (caps : Caps) (inp : Str) (f mn pos : Nat) (r : R)
+    (h : mAux f (.rep mn none (.set S)) inp pos caps k = some r) :
+    ∃ j, mn ≤ j ∧ j ≤ inp.length ∧ (∀ c ∈ inp.take j, S.matches c = true) ∧ k (inp.drop j) (pos + j) caps ≠ none := by
+  apply Classical.byContradiction
+  intro hcon
+  have := rep_set_fail S k caps inp f mn pos (fun j h1 h2 h3 =>
+    Classical.byContradiction (fun hne => hcon ⟨j, h1, h2, h3, hne⟩))
+  rw [this] at h
+  cases h
+
+def constWord : Str := ['c', 'o', 'n', 's', 't']
+
+/-- the optional group `(const\s+)` cannot be taken when behind `const` and every possible run of white space the name part
+    fails -/
+theorem group1_fail (f g : Nat) (s : Str)
+    (h : ∀ x5, s = constWord ++ x5 → ∀ j, 1 ≤ j → j ≤ x5.length → (∀ c ∈ x5.take j, isSpaceChar c = true) →
+      ∀ p c, mAux g reName (x5.drop j) p c kfin = none) :
+    mAux f (.group 1 reConst) s 0 []
+      (fun i p c => if p = 0 then none else mAux f (.rep (0 - 1) ((some 1).map (· - 1)) (.group 1 reConst)) i p c
+        (fun i p c => mAux g reName i p c kfin)) = none := by
+  cases hm : mAux f (.group 1 reConst) s 0 [] _ with
+  | none => rfl
+  | some r0 =>
+    exfalso
+    cases f with
+    | zero => rw [mAux_zero] at hm; cases hm
+    | succ f1 =>
+      rw [mAux_group, reConst] at hm
+      obtain ⟨g1, x1, e1, h1⟩ := seq_lit_some _ _ _ _ _ _ _ _ hm
+      obtain ⟨g2, x2, e2, h2⟩ := seq_lit_some _ _ _ _ _ _ _ _ h1
+      obtain ⟨g3, x3, e3, h3⟩ := seq_lit_some _ _ _ _ _ _ _ _ h2
+      obtain ⟨g4, x4, e4, h4⟩ := seq_lit_some _ _ _ _ _ _ _ _ h3
+      obtain ⟨g5, x5, e5, h5⟩ := seq_lit_some _ _ _ _ _ _ _ _ h4
+      have hs : s = constWord ++ x5 := by rw [e1, e2, e3, e4, e5]; rfl
+      obtain ⟨j, hj1, hj, hall, hk⟩ := rep_set_some _ _ _ _ _ _ _ _ h5
+      have hall' : ∀ c ∈ x5.take j, isSpaceChar c = true := fun c hc => by rw [← setSP_matches]; exact hall c hc
+      have hfail := h x5 hs j hj1 hj hall'
+      apply hk
+      show (if 0 + 1 + 1 + 1 + 1 + 1 + j = 0 then none else mAux (f1 + 1) _ (x5.drop j) (0 + 1 + 1 + 1 + 1 + 1 + j) _ _) = none
+      rw [if_neg (by omega)]
+      have hmm : repMore f1 (0 - 1) ((some 1).map (· - 1)) (.group 1 reConst) (x5.drop j) (0 + 1 + 1 + 1 + 1 + 1 + j)
+          (Caps.set [] 1 (0, 0 + 1 + 1 + 1 + 1 + 1 + j)) (fun i p c => mAux g reName i p c kfin) = none := by simp [repMore]
+      have e := mAux_rep_none _ _ _ _ _ _ _ _ hmm
+      simp only [reConst] at e
+      rw [e]
+      have := hfail (0 + 1 + 1 + 1 + 1 + 1 + j) (Caps.set [] 1 (0, 0 + 1 + 1 + 1 + 1 + 1 + j))
+      simpa using this
+
+/-- … then the whole pattern reads the name from the start -/
+theorem optConst_fallback (f : Nat) (s : Str) (hf : 2 ≤ f)
+    (h : ∀ x5, s = constWord ++ x5 → ∀ j, 1 ≤ j → j ≤ x5.length → (∀ c ∈ x5.take j, isSpaceChar c = true) →
+      ∀ p c, mAux (f - 1) reName (x5.drop j) p c kfin = none) :
+    mAux f (.seq reOptConst reName) s 0 [] kfin = mAux (f - 1) reName s 0 [] kfin := by
+  obtain ⟨f', rfl⟩ : ∃ f', f = f' + 2 := ⟨f - 2, by omega⟩
+  have hnone : repMore f' 0 (some 1) (.group 1 reConst) s 0 [] (fun i p c => mAux (f' + 1) reName i p c kfin) = none := by
+    simp only [repMore, Option.some.injEq, Nat.succ_ne_self, if_false]
+    exact group1_fail f' (f' + 1) s h
+  rw [mAux_seq, reOptConst, mAux_rep_none _ _ _ _ _ _ _ _ hnone, if_pos rfl]
+  rfl
+
+theorem searchFrom_pos_none (s : Str) : ∀ (fuel start : Nat), 0 < start →
+    searchFrom Generated.C08Regex.CppViewHelper_Param_VarType s fuel start = none := by
+  intro fuel
+  induction fuel with
+  | zero => intro _ _; rfl
+  | succ n ih =>
+    intro start hs
+    rw [searchFrom]
+    split
+    · rfl
+    · have hm : matchAt Generated.C08Regex.CppViewHelper_Param_VarType s start = none := by
+        rw [matchAt, varType_pattern]
+        cases fuelFor (Re.seq Re.bol (Re.seq reOptConst reName)) s with
+        | zero => rw [mAux_zero]
+        | succ F =>
+          rw [mAux_seq]
+          cases F with
+          | zero => rw [mAux_zero]
+          | succ F => rw [mAux_bol, if_neg (by omega)]
+      rw [hm]
+      exact ih (start + 1) (by omega)
+
+/-- no match at the start: `search(...)` is `None` and `[2]` raises TypeError -/
+theorem varTypeGroup2_none (s : Str) (hm : ∀ f, mAux f (.seq reOptConst reName) s 0 [] kfin = none) :
+    varTypeGroup2 s = .error .TypeError := by
+  have hmatch : matchAt Generated.C08Regex.CppViewHelper_Param_VarType s 0 = none := by
+    rw [matchAt, varType_pattern]
+    cases fuelFor (Re.seq Re.bol (Re.seq reOptConst reName)) s with
+    | zero => rw [mAux_zero]
+    | succ F =>
+      rw [mAux_seq]
+      cases F with
+      | zero => rw [mAux_zero]
+      | succ F => rw [mAux_bol, if_pos rfl]; exact hm _
+  have hsearch : search Generated.C08Regex.CppViewHelper_Param_VarType s = none := by
+    rw [search, searchFrom, if_neg (by omega), hmatch]
+    exact searchFrom_pos_none s _ 1 (by omega)
+  rw [varTypeGroup2, hsearch]
+
 end Tranp.Block
